@@ -52,6 +52,8 @@ var atOnceTags = []struct{ prefix, props string }{
 	{"MultiScalar(3 points)", "C05 C07 C09"},
 	{"BatchNormalize(3)", "C07 C19"},
 	{"Element arithmetic", "C07 C08"},
+	{"Element.MultiExp(20 points)", "C07 C09"},
+	{"calls that end with an error", "C01 C04 C09 C13 C19"},
 	{"batch helpers", "C11 C19"},
 	{"parallel.Execute", "C20"},
 	{"CheckIPAProof", "C04"},
@@ -104,7 +106,12 @@ func atOnceUnits(id string) []core.Unit {
 				vsched.SetNumCPU(2)
 				defer vsched.SetNumCPU(0)
 				vsched.FamilyAffinity, vsched.PostPoints, vsched.GlobalPoints = true, true, true
-				defer func() { vsched.FamilyAffinity, vsched.PostPoints, vsched.GlobalPoints = false, false, false }()
+				oldPoison := vsched.PoolPoison
+				vsched.PoolPoison = poisonBig // an object handed to Put may be reused by anybody at once
+				defer func() {
+					vsched.FamilyAffinity, vsched.PostPoints, vsched.GlobalPoints = false, false, false
+					vsched.PoolPoison = oldPoison
+				}()
 				var want string
 				if !guard(r, lower(id)+".panic", oa.name+" / "+ob.name, "executed alone", func() {
 					want = "[0]" + oa.f(c, ctx.Seed, 0) + "[1]" + ob.f(c, ctx.Seed, 1)
@@ -293,6 +300,7 @@ func fuChild(ctx *core.Ctx, r *core.Result) {
 	}
 	vsched.SetNumCPU(2)
 	vsched.FamilyAffinity, vsched.PostPoints, vsched.GlobalPoints = true, true, true
+	vsched.PoolPoison = poisonBig
 	body := func() string {
 		outs := make([]string, 2)
 		var wg vsched.WaitGroup
